@@ -73,6 +73,11 @@ CHECKS = {
    text="Every method kind (44 + 15 MA kinds) and every indicator with generated valid parameters, first value/candle of any sign, zero, magnitude and shape (generic, flat, zero-volume), k in 1..3n+10 leading copies: outputs of the copies are constant (bit-equal for exact kinds and signals, within the allowance for arithmetic kinds) and the continuation agrees with the run without the copies.",
    note="Exemptions are the ones the property states. Three known findings (signals of average-comparing indicators on rounding noise; Vidya smoothing a computed series; TrendStrengthIndex 0/0) are classified by construction and listed in known_findings.txt; the checks continue behind them.",
    ref="DESIGN.md §5 C08, Appendix A"),
+ "C12": dict(
+   technique="PBT invariant checking with regime-biased generators (volatile -> exactly flat -> volatile, zero volume, high == low)",
+   text="All 37 indicators on regime streams sized to the configuration's longest window, every step: documented intervals, band orderings, channel containment, SAR side (exact), non-negative dispersion, clv range and finiteness of every value wherever the formula is defined; no conditioning exemption for the flat regimes.",
+   note="Pure predicates on outputs, no reference model. Five fix: commits (RSI, MFI, CMO, TrendStrengthIndex, Vidya) removed the violations found.",
+   ref="DESIGN.md §5 C12, Appendix A"),
 }
 
 PENDING = {
